@@ -258,6 +258,14 @@ class Session:
             gens = self.generations(calls, R)
             if len(calls) != len(self.cfg['vars']):
                 ctx.fail('I10.gen', f'one evaluation made {len(calls)} generator calls for {len(self.cfg["vars"])} draw variables')
+            # reproducibility across processes: the series are generated in an order that is a function of the names
+            # (sorted, reverse sorted or as declared), never of a hash-dependent iteration
+            tmap = dict(self.cfg['vars'])
+            seq = [c[0] for c in calls]
+            orders = [sorted(tmap), sorted(tmap, reverse=True), [n_ for n_, _ in self.cfg['vars']]]
+            if len(set(tmap.values())) > 1 and not any(seq == [tmap[n_] for n_ in o_] for o_ in orders):
+                ctx.fail('I10.seed', f'the series were generated in the order {seq}, which is none of the orders defined by the '
+                                     f'names {sorted(tmap.items())}: seeded results would differ between processes')
             self.match_some('Monte-Carlo value through get_value_c', list(got), gens, betas, R, log=log)
             # the generator output is used unmodified: every slice of the table handed to the engine is, bit for
             # bit, the series one generator call of that variable's type returned (each call used once)
@@ -315,9 +323,10 @@ class Session:
             ctx.log(kind, R2)
         elif kind == 'REBUILD':
             seed, R, adv = a
-            r1 = self.make(seed, R, keep=False)
+            kw = bool(adv % 2)      # the seed handed over as a constructor keyword / in the Parameters object
+            r1 = self.make(seed, R, keep=False, seed_as_kwarg=kw)
             np.random.random(adv)
-            r2 = self.make(seed, R, keep=False)
+            r2 = self.make(seed, R, keep=False, seed_as_kwarg=kw)
             l1, l2 = self.ll(r1, 1), self.ll(r2, 1)
             if l1 != l2:
                 ctx.fail('I10.seed', f'two constructions with seed {seed} give likelihoods {l1!r} and {l2!r}')
@@ -419,6 +428,31 @@ class Session:
                 if not ref.close(float(got[i_]), want, 1e-6, 1e-8):
                     ctx.fail('I10.derive', f'Derive(., {name_}) (family {fam}) on row {i_}: {float(got[i_])!r}, the partial '
                                            f'derivative is {want!r}')
+            # the SAME Derive object is then numbered in another context: a BIOGEME object with one more parameter
+            import biogeme.biogeme as bio
+            from biogeme.parameters import Parameters
+            p_ = Parameters()
+            p_.set_value('save_iterations', False)
+            p_.set_value('number_of_threads', self.cfg['threads'])
+            extra = ex.Beta('a_first', 0.2, None, None, 0) * ex.Variable('x1') + ex.Beta('zz_last', -0.1, None, None, 0)
+            bb = bio.BIOGEME(self.db, {'d': e, 'extra': extra}, parameters=p_)
+            vals = dict(betas, a_first=0.2, zz_last=-0.1)
+            sim = bb.simulate({n_: vals[n_] for n_ in bb.free_beta_names})
+            for i_, row in enumerate(self.rows):
+                r2, b2 = dict(row), dict(betas)
+                step = 1e-5
+
+                def val2(delta, row=row):
+                    r3, b3 = dict(row), dict(betas)
+                    if wrt_var:
+                        r3['x0'] += delta
+                    else:
+                        b3['b0'] += delta
+                    return ref.ev(h, ref.Env(r3, b3))
+                want = (val2(step) - val2(-step)) / (2 * step)
+                if not ref.close(float(sim['d'].iloc[i_]), want, 1e-6, 1e-8):
+                    ctx.fail('I10.derive', f'Derive(., {name_}) simulated inside a BIOGEME object with more parameters, row {i_}: '
+                                           f'{float(sim["d"].iloc[i_])!r}, the partial derivative is {want!r}')
             ctx.count('derivatives_checked')
             ctx.log(kind, k, fam, name_)
         elif kind == 'RESERVED':
@@ -435,20 +469,24 @@ class Session:
             raise RuntimeError(kind)
         ctx.state([kind, len(self.objects)])
 
-    def make(self, seed, R, keep=True):
+    def make(self, seed, R, keep=True, seed_as_kwarg=False):
         import biogeme.biogeme as bio
         import biogeme.expressions as ex
         from biogeme.parameters import Parameters
         ctx = self.ctx
         p = Parameters()
-        p.set_value('seed', seed)
+        if not seed_as_kwarg:
+            p.set_value('seed', seed)
         p.set_value('number_of_draws', R)
         p.set_value('number_of_threads', self.cfg['threads'])
         p.set_value('save_iterations', False)
         inner = self.build(self.integrand())
         mc = ex.MonteCarlo(inner)
         self.calls.clear()
-        b = bio.BIOGEME(self.db, {'log_like': ex.log(mc), 'p': mc}, parameters=p)
+        if seed_as_kwarg:
+            b = bio.BIOGEME(self.db, {'log_like': ex.log(mc), 'p': mc}, parameters=p, seed=seed)
+        else:
+            b = bio.BIOGEME(self.db, {'log_like': ex.log(mc), 'p': mc}, parameters=p)
         calls = list(self.calls)
         self.check_shapes(calls, R, 'BIOGEME construction')
         gens = self.generations(calls, R)
